@@ -230,3 +230,9 @@ spec fn extents_cover_batch(extents: Seq<(u64, usize)>, w: Seq<PreparedWrite>, b
     &&& extents.len() > 0
     &&& forall|i: int| 0 <= i < extents.len() ==> (#[trigger] extents[i]).0 == batch[i].0 && extents[i].1 == w[i].sectors_needed
 }
+
+// retirement-queue flush (its core, process_deletions, is verified above); Ok(true) = retirements left to retry
+#[verifier::external_body]
+fn flush_pending_deletions(q: &RetirementQueue, disk_io: &DiskLock, free_space: &FreeSpaceLock, stats: &Statistics, format: &FormatAny) -> Result<bool> {
+    unimplemented!()
+}
